@@ -257,6 +257,103 @@ theorem rename_with_stale_cache_witness :
 theorem merge_cache_clears_present :
     mergeCacheClears = [("merge_ctes", "clear_cache"), ("merge_derived_tables", "clear_cache")] := by decide
 
+-- ------------------------------------------------------------------------------------------ simplify.uniq_sort
+/-- a conjunction only depends on WHICH truth values occur among its operands -/
+theorem conj3_eq_of_same_values (l m : List B3) (h : ∀ v, v ∈ l ↔ v ∈ m) : conj3 l = conj3 m := by
+  have char : ∀ l : List B3, conj3 l =
+      if (some false) ∈ l then some false else if none ∈ l then none else some true := by
+    intro l
+    induction l with
+    | nil => simp [conj3]
+    | cons x xs ih =>
+      simp only [conj3, ih]
+      cases x with
+      | none => by_cases h1 : (some false) ∈ xs <;> by_cases h2 : (none : B3) ∈ xs <;> simp [and3, h1, h2]
+      | some b => cases b <;> by_cases h1 : (some false) ∈ xs <;> by_cases h2 : (none : B3) ∈ xs <;> simp [and3, h1, h2]
+  rw [char l, char m]
+  simp [h]
+
+/-- **`uniq_sort` is sound when the key is injective up to meaning**: if two operands with the same generated key
+    always have the same truth value, dropping all but the first operand of every key keeps the value of the
+    conjunction — for every operand list -/
+theorem uniq_sort_sound_of_key_injective (l : List (String × B3))
+    (hk : ∀ p ∈ l, ∀ q ∈ l, p.1 = q.1 → p.2 = q.2) :
+    conj3 ((dedupByKey l).map (·.2)) = conj3 (l.map (·.2)) := by
+  apply conj3_eq_of_same_values
+  -- generalised: with `seen` keys whose values are already accounted for in `vs`
+  suffices H : ∀ (seen : List String) (vs : List B3) (l : List (String × B3)),
+      (∀ p ∈ l, ∀ q ∈ l, p.1 = q.1 → p.2 = q.2) →
+      (∀ p ∈ l, p.1 ∈ seen → p.2 ∈ vs) →
+      ∀ v, (v ∈ vs ∨ v ∈ (dedupAux seen l).map (·.2)) ↔ (v ∈ vs ∨ v ∈ l.map (·.2)) by
+    intro v
+    have := H [] [] l hk (by simp) v
+    simpa [dedupByKey] using this
+  intro seen vs l
+  induction l generalizing seen vs with
+  | nil => intro _ _ v; simp [dedupAux]
+  | cons x xs ih =>
+    intro hk hs v
+    have hk' : ∀ p ∈ xs, ∀ q ∈ xs, p.1 = q.1 → p.2 = q.2 :=
+      fun p hp q hq => hk p (List.mem_cons_of_mem _ hp) q (List.mem_cons_of_mem _ hq)
+    simp only [dedupAux]
+    by_cases hc : seen.contains x.1 = true
+    · have hx : x.2 ∈ vs := hs x (List.mem_cons_self ..) (by simpa using hc)
+      simp only [hc, if_true]
+      have := ih seen vs hk' (fun p hp hps => hs p (List.mem_cons_of_mem _ hp) hps) v
+      rw [this]
+      simp only [List.map_cons, List.mem_cons]
+      constructor
+      · rintro (h | h)
+        · exact Or.inl h
+        · exact Or.inr (Or.inr h)
+      · rintro (h | h | h)
+        · exact Or.inl h
+        · exact Or.inl (h ▸ hx)
+        · exact Or.inr h
+    · simp only [hc, Bool.false_eq_true, if_false, List.map_cons, List.mem_cons]
+      have hs' : ∀ p ∈ xs, p.1 ∈ x.1 :: seen → p.2 ∈ x.2 :: vs := by
+        intro p hp hps
+        cases List.mem_cons.mp hps with
+        | inl h1 =>
+          have := hk p (List.mem_cons_of_mem _ hp) x (List.mem_cons_self ..) h1
+          simp [this]
+        | inr h2 => exact List.mem_cons_of_mem _ (hs p (List.mem_cons_of_mem _ hp) h2)
+      have := ih (x.1 :: seen) (x.2 :: vs) hk' hs' v
+      simp only [List.mem_cons] at this
+      constructor
+      · rintro (h | h | h)
+        · exact Or.inl h
+        · exact Or.inr (Or.inl h)
+        · have := this.mp (Or.inr h)
+          rcases this with (h1 | h1) | h1
+          · exact Or.inr (Or.inl h1)
+          · exact Or.inl h1
+          · exact Or.inr (Or.inr h1)
+      · rintro (h | h | h)
+        · exact Or.inl h
+        · exact Or.inr (Or.inl h)
+        · have := this.mpr (Or.inr h)
+          rcases this with (h1 | h1) | h1
+          · exact Or.inr (Or.inl h1)
+          · exact Or.inl h1
+          · exact Or.inr (Or.inr h1)
+
+/-- NECESSITY of key injectivity (seeded regression C03-6: `Gen.in_sql` drops `query`, every `x IN (<subquery>)` gets
+    the key `x IN ()`): two different IN-subquery predicates with one key, TRUE and FALSE on some row — the
+    de-duplicated conjunction is TRUE, the original FALSE -/
+theorem uniq_sort_key_collision_witness :
+    conj3 ((dedupByKey [("x.a IN ()", (some true : B3)), ("x.a IN ()", some false)]).map (·.2)) = some true ∧
+    conj3 ([("x.a IN ()", (some true : B3)), ("x.a IN ()", some false)].map (·.2)) = some false := by decide
+
+/-- TABLE FACT (ast of simplify.Gen against the live arg_types, re-read every run): every handler of the key
+    generator mentions every arg of its expression class, except this audited list (args that do not occur in the
+    fragment: BETWEEN SYMMETRIC, bracket options, join marks, the Div typing flags, identifier scoping flags) -/
+theorem gen_handlers_cover_all_args :
+    genHandlerMissing = [("between", ["symmetric"]),
+                         ("bracket", ["offset", "safe", "returns_list_for_maps", "json_access"]),
+                         ("column", ["join_mark", "shadow"]), ("div", ["typed", "safe"]),
+                         ("identifier", ["global_", "temporary"])] := by decide
+
 -- ------------------------------------------------------------------------------------------ unnest_subqueries
 /-- `decorrelate` of a correlated scalar subquery whose projection contains COUNT: the LEFT JOIN + COALESCE form
     returns the subquery's value for EVERY outer row and every table, provided (1) the fallback is the projection
